@@ -39,7 +39,7 @@ def generate(seed, tier, k):
     if k % 4 == 3:
         gen.add_faults(doc, seed, kinds=["solver_inexact", "solver_scale", "solver_flip"], p_fault=1.0)
     doc["c01"] = {"probe_seed": r.randrange(1 << 30), "probes_per_substep": r.choice([1, 2, 3]), "parallel": r.random() < (0.8 if any(i_["type"] == "FormItem" for i_ in doc["items"]) else 0.3), "pool": {"n": r.choice([2, 3, 4, 7, 16]), "order": r.choice(["shuffle", "lazy", "reverse"]), "seed": r.randrange(1 << 30)}}
-    return doc
+    return gen.maybe_units(doc, any_force=True, share=2 if any(i_["type"] == "MultiPointContact" for i_ in doc["items"]) else 4)
 
 
 class C01Monitor(jobsim.Monitor):
@@ -167,7 +167,15 @@ class C01Monitor(jobsim.Monitor):
             d = np.zeros(n)
             d[offs[blk] : offs[blk + 1]] = self.rng.normal(size=offs[blk + 1] - offs[blk])
             dirs.append((f"block{blk}", d / np.linalg.norm(d)))
-        xs = 1.0 + float(np.abs(x).max())
+        # natural scales of the unknowns in the unit system of the scenario (lengths L, stresses S):
+        # directions and step sizes are taken relative to them
+        un = self.doc.get("units", {})
+        Lc = float(un.get("L", 1.0))
+        sc = np.ones(n)
+        for kf in range(len(offs) - 1):
+            sc[offs[kf] : offs[kf + 1]] = Lc if kf == 0 else (float(un.get("S", 1.0)) if kf == 1 else 1.0)
+        dirs = [(nm, dv_ * sc) for nm, dv_ in dirs]
+        xs = 1.0 + float(np.abs(x / sc).max())
         for dname, dv in dirs:
             Kd = Kuse @ dv
             best = None
@@ -200,7 +208,7 @@ class C01Monitor(jobsim.Monitor):
                 self.log.count("kink-discarded")
                 continue
             self.log.count("fd-probe-smooth")
-            if err > 2e-6 * scale + 1e-8 * whole + 1e-12:
+            if err > 2e-6 * scale + 1e-8 * whole + 1e-300:
                 # a wrong tangent gives the same error at both step sizes (truncation error is
                 # negligible); switching points at different distances from the state do not
                 if abs(errs[1e-5] - errs[1e-6]) > 0.25 * max(errs.values()):
@@ -370,22 +378,22 @@ def kwargs_check(doc, log):
 
             def R(u):
                 w.set_values([u])
-                body.assemble.vector(w.field, kwargs=kw)
-                return body.assemble.vector(w.field, kwargs=kw).toarray().ravel()  # (condensed state settled)
+                body.assemble.vector(w.field, kwargs=dict(kw))
+                return body.assemble.vector(w.field, kwargs=dict(kw)).toarray().ravel()  # (condensed state settled)
 
             r0 = R(base)
-            K = body.assemble.matrix(w.field, kwargs=kw).toarray()
+            K = body.assemble.matrix(w.field, kwargs=dict(kw)).toarray()
             d = rng.normal(size=base.shape)
             if doc["field"]["kind"] == "Axi":
                 d[np.abs(w.mesh.points[:, 1]) < 1e-12, 1] = 0.0
             d /= np.abs(d).max()
-            h = 1e-6
+            h = 1e-6 * float(np.max(doc["mesh"]["b"]))
             g = (R(base + h * d) - R(base - h * d)) / (2 * h)
             Kd = K @ d.ravel()
             err = float(np.abs(Kd - g).max())
             sc = float(np.abs(Kd).max() + np.abs(g).max()) + 1e-300
             if not np.isfinite(err) or err > 2e-5 * sc:
-                raise Violation(PROP, "fd-tangent", f"{name}: matrix assembled with kwargs={kw} differs from the central difference of the vector assembled with the same kwargs by {err:.3e} (scale {sc:.3e})", site=f"{name}.assemble(kwargs)")
+                raise Violation(PROP, "fd-tangent", f"{name}: matrix assembled with kwargs={ {k_: v_ for k_, v_ in kw.items() if k_ != 'out'} } differs from the central difference of the vector assembled with the same kwargs by {err:.3e} (scale {sc:.3e})", site=f"{name}.assemble(kwargs)")
             log.count("umat-kwargs-checked")
 
 
